@@ -446,14 +446,15 @@ func encView(h *api.HyperNodesInfo) []int64 {
 // what happened during a history (used for the order-dependence flag and for
 // the signatures of the documented findings)
 type flags struct {
-	amb                  bool // Go map order may matter: compared by the laws only
-	sawNotReady          bool // Ready() was false after some event
-	selStale             bool // D2: a node event the cache does not propagate to a HyperNode whose selector matches the node
-	deletedClaimed       bool // D5: a HyperNode was deleted while another one still listed it as a member
-	failedDelete         bool // D6: a DeleteHyperNode returned an error (the entry stays, marked as being deleted)
-	foreignReset         bool // D9: an update / delete released a member whose Parent pointer named another HyperNode
-	arrivesDoublyClaimed bool // D15: an object arrived for a name that two or more stored HyperNodes list
-	tierInversion        bool // D7: at some point a stored HyperNode claimed a member whose tier is not below its own
+	amb                  bool          // Go map order may matter: compared by the laws only
+	sawNotReady          bool          // Ready() was false after some event
+	selStale             bool          // D2: a node event the cache does not propagate to a HyperNode whose selector matches the node
+	deletedClaimed       bool          // D5: a HyperNode was deleted while another one still listed it as a member
+	failedDelete         bool          // D6: a DeleteHyperNode returned an error (the entry stays, marked as being deleted)
+	foreignReset         bool          // D9: an update / delete released a member whose Parent pointer named another HyperNode
+	arrivesDoublyClaimed bool          // D15: an object arrived for a name that two or more stored HyperNodes list
+	invLinks             map[link]bool // D7: claimer -> member links that were tier-inverted at some point
+	tierInversion        bool          // D7: at some point a stored HyperNode claimed a member whose tier is not below its own
 }
 
 // selStale (finding D2): node event for n, and some stored HyperNode that has BOTH HyperNode
@@ -554,6 +555,10 @@ func runHistory(w *world, evs []event, obs func(i int, s *sut)) (s *sut, fl flag
 		if tierInverted(after) {
 			fl.tierInversion = true
 		}
+		if fl.invLinks == nil {
+			fl.invLinks = map[link]bool{}
+		}
+		invertedLinks(after, fl.invLinks)
 		if !s.hni.Ready() {
 			fl.sawNotReady = true
 		}
@@ -837,25 +842,55 @@ func laws(sel int, in, got []int64, law func(lsel int, lin []int64, sig string))
 		// only to the law the finding explains; 111/112 re-check everything D2 does not touch.
 		const d2 = "C14-D2-selector-members-of-non-leaf-hypernode-stale-after-node-event"
 		const d7 = "C14-D7-bad-membership-invisible-under-tier-inversion"
-		pick := func(f flags, order ...string) string {
-			for _, sg := range order {
-				switch {
-				case sg == d2 && f.selStale, sg == d7 && f.tierInversion:
-					return sg
-				}
+		// D2: by history flag (a node event concerned a mixed HyperNode).  D7: only when the
+		// HyperNodes the law complains about sit at a link that was tier-inverted at some point
+		// (d7sig.go); every other failure of the same laws in the same history stays unsigned.
+		tree := specOf(w, objs, nodes)
+		allLinks := map[link]bool{}
+		for l := range fl.invLinks {
+			allLinks[l] = true
+		}
+		for l := range ffl.invLinks {
+			allLinks[l] = true
+		}
+		offIncr, offFresh := offenders(s.hni, tree), offenders(f.hni, tree)
+		viewSig := func(selStale bool, off []int64, links map[link]bool, withD2 bool) string {
+			if withD2 && selStale {
+				return d2
+			}
+			if d7ExplainsView(off, d7Cover(links, tree)) {
+				return d7
 			}
 			return ""
 		}
-		both := flags{selStale: fl.selStale || ffl.selStale, failedDelete: fl.failedDelete || ffl.failedDelete,
-			tierInversion: fl.tierInversion || ffl.tierInversion, foreignReset: fl.foreignReset || ffl.foreignReset}
-		law(101, cat(encEnv(w, nodes), eo, incr), pick(fl, d2, d7))
-		law(111, cat(encEnv(w, nodes), eo, incr), pick(fl, d7))
-		law(102, cat(eo, incr, fresh), pick(both, d2, d7))
-		law(112, cat(eo, incr, fresh), pick(both, d7))
-		law(105, cat(eo, incr), pick(fl, d7))
-		law(106, cat(eo, incr), pick(fl, d7))
-		law(101, cat(encEnv(w, nodes), eo, fresh), pick(ffl, d2, d7))
-		law(106, cat(eo, fresh), pick(ffl, d7))
+		badSig := func(links map[link]bool) string {
+			if d7ExplainsBad(objs, links) {
+				return d7
+			}
+			return ""
+		}
+		sig105 := ""
+		if len(fl.invLinks) > 0 && (len(offIncr) == 0 || d7ExplainsView(offIncr, d7Cover(fl.invLinks, tree))) {
+			// not ready on a consistent final forest: a rebuild through a once-inverted link is
+			// still recorded as failed; no other HyperNode is wrong
+			for l := range fl.invLinks {
+				if _, ok := tree.objs[l.claimer]; ok {
+					sig105 = d7
+				}
+				if _, ok := tree.objs[l.member]; ok {
+					sig105 = d7
+				}
+			}
+		}
+		diff := differing(s.hni, f.hni, tree)
+		law(101, cat(encEnv(w, nodes), eo, incr), viewSig(fl.selStale, offIncr, fl.invLinks, true))
+		law(111, cat(encEnv(w, nodes), eo, incr), viewSig(false, offIncr, fl.invLinks, false))
+		law(102, cat(eo, incr, fresh), viewSig(fl.selStale || ffl.selStale, diff, allLinks, true))
+		law(112, cat(eo, incr, fresh), viewSig(false, diff, allLinks, false))
+		law(105, cat(eo, incr), sig105)
+		law(106, cat(eo, incr), badSig(fl.invLinks))
+		law(101, cat(encEnv(w, nodes), eo, fresh), viewSig(ffl.selStale, offFresh, ffl.invLinks, true))
+		law(106, cat(eo, fresh), badSig(ffl.invLinks))
 	case 3:
 		traceLaws(law)
 	case 2:
